@@ -722,7 +722,12 @@ class Machine:
             return self.call(f, [])
         if k == 'named':
             n = c[1]
-            mm = re.fullmatch(r'(?:std::|core::)?([iu](?:8|16|32|64|128|size))::(MIN|MAX)', n)
+            nn = re.sub(r'::<impl \w+>', '', n)
+            fm = re.fullmatch(r'(?:std::|core::)?f64::(EPSILON|NAN|INFINITY|NEG_INFINITY|MAX|MIN|MIN_POSITIVE)', nn) or re.fullmatch(r'(?:std::|core::)?f64::consts::(PI|E)', nn)
+            if fm:
+                return {'EPSILON': 2.220446049250313e-16, 'NAN': float('nan'), 'INFINITY': float('inf'), 'NEG_INFINITY': float('-inf'), 'MAX': 1.7976931348623157e308,
+                        'MIN': -1.7976931348623157e308, 'MIN_POSITIVE': 2.2250738585072014e-308, 'PI': math.pi, 'E': math.e}[fm.group(1)]
+            mm = re.fullmatch(r'(?:std::|core::)?([iu](?:8|16|32|64|128|size))::(MIN|MAX)', nn)
             if mm:
                 lo, hi = int_range(mm.group(1))
                 return lo if mm.group(2) == 'MIN' else hi
